@@ -45,8 +45,8 @@ CHAIN_END = ('Finish', 'TpcAbort')
 EDITS = ('CreateBlob', 'Rewrite', 'Append', 'ConsumeFile', 'ConsumeFail', 'ModifyP', 'OpenWrite', 'OpenRead')
 ALL_ACTIONS = EDITS + ('Savepoint', 'Rollback', 'AbortTxn', 'TpcBegin', 'StoreOK', 'StoreFail', 'Vote', 'Finish',
                        'ConnAbort', 'TpcAbort', 'OtherCommit', 'UBegin', 'UStoreOK', 'UStoreFail', 'Pack',
-                       'Wrong', 'OtherAbort', 'OtherFinish', 'Late', 'UStoreCopyFail', 'CloseAll', 'Boundary')
-INLINE = ('Wrong', 'Late')          # calls made while a commit is in progress (from inside the Probe's callbacks)
+                       'Wrong', 'OtherAbort', 'OtherFinish', 'Late', 'UStoreCopyFail', 'CloseAll', 'Boundary', 'StoreFault', 'PackDuring')
+INLINE = ('Wrong', 'Late', 'PackDuring')          # calls made while a commit is in progress (from inside the Probe's callbacks)
 P_OID = 1
 
 
@@ -413,7 +413,7 @@ class BlobReplayer:
                # any more (whether such a file is still there depends on when Python frees the Blob object: a
                # stale weak-reference callback of the same object may remove it - not judged, DESIGN notes on C13)
                'tmp': (tuple(sorted(self.md5(c) for b, c in _fn(con['work']).items() if b not in con['newb'])),
-                       tuple(sorted(self.md5(c) for c in s['leak']))),
+                       tuple(sorted([self.md5(c) for c in s['leak']] + [self.md5(())] * s['aux'].get('utmp', 0)))),
                'sp': tuple(sorted(self.md5(c) for c in _fn(con['spfile']).values()))}
         if self.flavour == 'mixin':
             exp['old'] = {k: (self.md5(v['c']), v['ro']) for k, v in _fn(s['old']).items()}
@@ -449,7 +449,8 @@ class BlobReplayer:
             out.append('tmp: savepoint files missing: %s' % sorted((want - got).elements()))
         if got - want and (self.spb_per_serial or not state['con']['spon']):
             out.append('tmp: savepoint files the specification does not know: %s' % sorted((got - want).elements()))
-        self.leaks_seen = max(getattr(self, 'leaks_seen', 0), sum((have - owned).values()))
+        self.unowned_now = sum((have - owned).values())
+        self.leaks_seen = max(getattr(self, 'leaks_seen', 0), self.unowned_now)
         return out
 
     # ------------------------------------------------------------------ single actions
@@ -528,6 +529,8 @@ class BlobReplayer:
                 self._late()
             elif a == 'Wrong':
                 return self._wrong(args[0])
+            elif a == 'PackDuring':
+                self.db.pack(t=clock.T0 + args[0] + 0.5)
             elif a == 'Pack':
                 try:
                     self.db.pack(t=clock.T0 + args[0] + 0.5)
@@ -664,7 +667,27 @@ class BlobReplayer:
         faultfs.S.fail_at = 0
         self._armed = True
 
+    def _arm_chmod_fault(self):
+        """the next os.chmod made by ZODB.blob fails once (a file system without permission bits, EPERM): inside
+        rename_or_copy_blob, after the file was moved to its committed name"""
+        import errno
+        from .. import faultfs
+        ensure_faultfs()
+        state = {'n': 0}
+
+        def chmod(path, mode):
+            state['n'] += 1
+            if state['n'] == 1:
+                raise OSError(errno.EPERM, 'injected fault (zv C13)')
+            return os.chmod(path, mode)
+        faultfs.PROXY.chmod = chmod
+        self._chmod_armed = True
+
     def _disarm_fault(self):
+        if getattr(self, '_chmod_armed', False):
+            from .. import faultfs
+            del faultfs.PROXY.chmod
+            self._chmod_armed = False
         if getattr(self, '_armed', False):
             from .. import faultfs
             self.fault_hits = faultfs.S.failed
@@ -708,7 +731,7 @@ class BlobReplayer:
             if st['name'] in phase_of:
                 cur = phase_of[st['name']]
             elif st['name'] in INLINE:
-                if cur is None or steps[k - 1]['name'] in ('StoreFail', 'UStoreFail', 'UStoreCopyFail'):
+                if cur is None or steps[k - 1]['name'] in ('StoreFail', 'UStoreFail', 'UStoreCopyFail', 'StoreFault'):
                     raise RuntimeError('%s after %s: no place to make the call from' % (st['name'], steps[k - 1]['name']))
                 probe.inline.setdefault(cur, []).append((k, st))
             else:
@@ -727,6 +750,8 @@ class BlobReplayer:
         got = 'ok'
         if 'UStoreCopyFail' in names:
             self._arm_copy_fault()
+        if 'StoreFault' in names:
+            self._arm_chmod_fault()
         try:
             tm.commit()
         except ProbeFailure as ex:
@@ -757,7 +782,7 @@ class BlobReplayer:
             want = 'probe:' + fail_at
         else:
             for st in steps:
-                if st['name'] in ('StoreFail', 'UStoreFail', 'UStoreCopyFail'):
+                if st['name'] in ('StoreFail', 'UStoreFail', 'UStoreCopyFail', 'StoreFault'):
                     want = st['state']['res']['out']         # ConflictError | UndoError | KeyError | OSError
         return got, want, caps
 
@@ -792,10 +817,11 @@ PACK_OK = ('ok', 'redundant', 'nothing-freed', 'same-time', 'empty')
 
 def consts(flavour, NBlob=2, Atoms=('a', 'b'), MaxLen=2, MaxTid=7, MaxSp=2, KeepOld=False,
            AbortNeedsVote=True, NonUndoPack=True, SpbPerSerial=True, ForeignAbortCleans=True, LateBookkeeping=True,
-           CopyFailUntracked=True):
+           CopyFailUntracked=True, StoreFaultUntracked=True, PackIgnoresInFlight=True):
     return dict(Flavour=flavour, NBlob=NBlob, Atoms=tuple(Atoms), MaxLen=MaxLen, MaxTid=MaxTid, MaxSp=MaxSp,
                 KeepOld=KeepOld, AbortNeedsVote=AbortNeedsVote, NonUndoPack=NonUndoPack, SpbPerSerial=SpbPerSerial,
-                ForeignAbortCleans=ForeignAbortCleans, LateBookkeeping=LateBookkeeping, CopyFailUntracked=CopyFailUntracked)
+                ForeignAbortCleans=ForeignAbortCleans, LateBookkeeping=LateBookkeeping, CopyFailUntracked=CopyFailUntracked,
+                StoreFaultUntracked=StoreFaultUntracked, PackIgnoresInFlight=PackIgnoresInFlight)
 
 
 def tla_consts(c):
@@ -806,7 +832,8 @@ def tla_consts(c):
             'MaxTid': c['MaxTid'], 'MaxSp': c['MaxSp'], 'KeepOld': b(c['KeepOld']),
             'AbortNeedsVote': b(c['AbortNeedsVote']), 'NonUndoPack': b(c['NonUndoPack']),
             'SpbPerSerial': b(c['SpbPerSerial']), 'ForeignAbortCleans': b(c.get('ForeignAbortCleans', True)),
-            'LateBookkeeping': b(c.get('LateBookkeeping', True)), 'CopyFailUntracked': b(c.get('CopyFailUntracked', True))}
+            'LateBookkeeping': b(c.get('LateBookkeeping', True)), 'CopyFailUntracked': b(c.get('CopyFailUntracked', True)),
+            'StoreFaultUntracked': b(c.get('StoreFaultUntracked', True)), 'PackIgnoresInFlight': b(c.get('PackIgnoresInFlight', True))}
 
 
 def load_behaviour(beh, atoms=('a',)):
@@ -869,6 +896,8 @@ def replay_behaviour(job):
 
     def note_viol(i):
         for v in steps[i]['state']['viol']:
+            if v['inv'] == 'NothingLeftInTmp' and not getattr(rp, 'unowned_now', 0):
+                continue                  # (the file is not there - any more: see expected())
             key = (v['inv'], v['kind'])
             if key not in res['tags']:
                 res['tags'].add(key)
